@@ -42,6 +42,7 @@ type scriptFile struct {
 	readEnds       []int       // cumulative bytes delivered after each data-carrying read
 	onRead         func(k int) // optional hook, called at the start of Read number k (0-based) without the lock
 	onClose        func()
+	eofData        bool // every read that delivers the last data returns io.EOF with it
 }
 
 func (f *scriptFile) Name() string { return f.name }
@@ -110,7 +111,7 @@ func (f *scriptFile) Read(p []byte) (int, error) {
 		f.dataReads++
 		f.readEnds = append(f.readEnds, f.delivered)
 	}
-	if len(f.data) == 0 && st.Err == "eof" && n > 0 {
+	if len(f.data) == 0 && (st.Err == "eof" || f.eofData) && n > 0 {
 		// EOF delivered together with the last data; a following read gives (0, EOF)
 		return n, io.EOF
 	}
